@@ -31,6 +31,7 @@ type numObs struct {
 	Input   string `json:"input"`
 	Got     string `json:"got"`
 	Outcome string `json:"outcome"`
+	VIssues int    `json:"vissues"` // issues of Validate on the same typed value (-1: the source is not a value of the destination type)
 }
 
 // exact values of the symbolic points, plus neighbours inside the same class (decimal text, parsed exactly)
@@ -238,6 +239,33 @@ func runNum(dest string, data any) (z.ZogIssueList, any, bool) {
 	panic(dest)
 }
 
+// C13: a value of the destination's own type is also given to Validate
+func validateNum(dest string, data any) int {
+	switch v := data.(type) {
+	case int:
+		if dest == "Int" {
+			return len(z.Int().Validate(&v))
+		}
+	case int64:
+		if dest == "Int64" {
+			return len(z.Int64().Validate(&v))
+		}
+	case int32:
+		if dest == "Int32" {
+			return len(z.Int32().Validate(&v))
+		}
+	case float64:
+		if dest == "Float64" {
+			return len(z.Float64().Validate(&v))
+		}
+	case float32:
+		if dest == "Float32" {
+			return len(z.Float32().Validate(&v))
+		}
+	}
+	return -1
+}
+
 func cmdNumTab(args []string) {
 	fs := flag.NewFlagSet("numtab", flag.ExitOnError)
 	cases := fs.String("cases", "cases.ndjson", "rows emitted by TLC (spec/Tab_C18.tla)")
@@ -277,7 +305,7 @@ func cmdNumTab(args []string) {
 			}
 			is, got, untouched := runNum(r.Dest, data)
 			oc, gs := classify(s, is, got, untouched)
-			o := numObs{ID: fmt.Sprintf("n%d", n), Rep: r.Rep, Dest: r.Dest, Point: r.Point, Input: fmt.Sprintf("%T(%v)", data, data), Got: gs, Outcome: oc}
+			o := numObs{ID: fmt.Sprintf("n%d", n), Rep: r.Rep, Dest: r.Dest, Point: r.Point, Input: fmt.Sprintf("%T(%v)", data, data), Got: gs, Outcome: oc, VIssues: validateNum(r.Dest, data)}
 			if len(o.Input) > 80 {
 				o.Input = o.Input[:80] + "..."
 			}
